@@ -177,3 +177,128 @@ proof fn lemma_row_src_extend(all: Seq<Token>, input: &str, cuts: Seq<int>, data
         }
     }
 }
+
+// ---- statements and blocks ----
+spec fn wblk(c: Seq<(int, int)>) -> bool { true }
+spec fn wm(m: int, c: Seq<(int, int)>) -> bool { true }
+
+/// the statements of a block lie in all[a..b) in order, apart, and each is followed by a line break or the end of input
+spec fn blk_ok(all: Seq<Token>, a: int, b: int, cuts: Seq<(int, int)>, n: int) -> bool {
+    &&& cuts.len() == n
+    &&& forall|i: int| #[trigger] wi(i) && 0 <= i < n ==> a <= cuts[i].0 && cuts[i].0 < cuts[i].1 && cuts[i].1 <= b && cuts[i].1 < all.len()
+        && (i > 0 ==> cuts[i - 1].1 < cuts[i].0)
+        && (all[cuts[i].1].kind == TokenKind::Eol || all[cuts[i].1].kind == TokenKind::Eof)
+}
+
+/// all[a..b) is one statement that yields `s`. `base` is the line on which the token sequence starts: the line recorded
+/// for a data row is base + the number of line breaks before the row's first token (C19). C12: every keyword,
+/// parenthesis, comma, semicolon and `end <keyword>` the grammar demands is there.
+#[verifier::opaque]
+spec fn stmt_src(all: Seq<Token>, input: &str, base: int, a: int, b: int, s: Stmt) -> bool
+    decreases s
+{
+    &&& 0 <= a < b <= all.len()
+    &&& match s {
+        Stmt::DataRow { data, line } => row_src(all, input, a, b, data@) && line == base + count_eol(all, a),
+        Stmt::Let { name, expr } => a + 4 < b && all[a].kind == TokenKind::Let && all[a + 1].kind == TokenKind::Ident && name@ == tok_str(input, all[a + 1])
+            && all[a + 2].kind == TokenKind::Equal && expr_src(all, input, a + 3, b - 1, expr) && all[b - 1].kind == TokenKind::Semi,
+        Stmt::ResetRandom => b == a + 2 && all[a].kind == TokenKind::ResetRandom && all[a + 1].kind == TokenKind::Semi,
+        Stmt::While { condition, inner } => a + 7 <= b && all[a].kind == TokenKind::While && all[a + 1].kind == TokenKind::LParen
+            && all[b - 2].kind == TokenKind::End && all[b - 1].kind == TokenKind::While
+            && (exists|m: int, cuts: Seq<(int, int)>| #[trigger] wm(m, cuts) && a + 2 < m && m + 2 <= b - 2
+                && expr_src(all, input, a + 2, m, condition) && all[m].kind == TokenKind::RParen && all[m + 1].kind == TokenKind::Eol
+                && blk_ok(all, m + 2, b, cuts, inner@.len() as int)
+                && (forall|i: int| #[trigger] wi(i) && 0 <= i < inner@.len() ==> stmt_src(all, input, base, cuts[i].0, cuts[i].1, inner@[i]))),
+        Stmt::Loop { variable, max, inner } =>
+            // loop(v, n) <line break> statements end loop
+            (a + 9 <= b && all[a].kind == TokenKind::Loop && all[a + 1].kind == TokenKind::LParen && all[a + 2].kind == TokenKind::Ident
+                && variable@ == tok_str(input, all[a + 2]) && all[a + 3].kind == TokenKind::Comma
+                && all[b - 2].kind == TokenKind::End && all[b - 1].kind == TokenKind::Loop
+                && (exists|m: int, cuts: Seq<(int, int)>| #[trigger] wm(m, cuts) && a + 4 < m && m + 2 <= b - 2
+                    && expr_src(all, input, a + 4, m, max) && all[m].kind == TokenKind::RParen && all[m + 1].kind == TokenKind::Eol
+                    && blk_ok(all, m + 2, b, cuts, inner@.len() as int)
+                    && (forall|i: int| #[trigger] wi(i) && 0 <= i < inner@.len() ==> stmt_src(all, input, base, cuts[i].0, cuts[i].1, inner@[i]))))
+            // repeat(n) row : a loop over the one row, counter `n` (C01)
+            || (all[a].kind == TokenKind::Repeat && all[a + 1].kind == TokenKind::LParen && variable@ == "n"@ && inner@.len() == 1
+                && (exists|m: int, cuts: Seq<(int, int)>| #[trigger] wm(m, cuts) && a + 2 < m && m + 1 <= b
+                    && expr_src(all, input, a + 2, m, max) && all[m].kind == TokenKind::RParen
+                    && (inner@[0] matches Stmt::DataRow { data, line } && row_src(all, input, m + 1, b, data@) && line == base + count_eol(all, m + 1)))),
+    }
+}
+
+/// the block `ss` read from all[a..b)
+spec fn block_src(all: Seq<Token>, input: &str, base: int, a: int, b: int, cuts: Seq<(int, int)>, ss: Seq<Stmt>) -> bool {
+    &&& blk_ok(all, a, b, cuts, ss.len() as int)
+    &&& forall|i: int| #[trigger] wi(i) && 0 <= i < ss.len() ==> stmt_src(all, input, base, cuts[i].0, cuts[i].1, ss[i])
+}
+
+proof fn lemma_block_src_extend(all: Seq<Token>, input: &str, base: int, a: int, b: int, b2: int, cuts: Seq<(int, int)>, ss: Seq<Stmt>, x: int, y: int, s: Stmt)
+    requires
+        block_src(all, input, base, a, b, cuts, ss), b <= x, a <= x, x < y <= b2, y < all.len(),
+        ss.len() > 0 ==> cuts.last().1 < x,
+        all[y].kind == TokenKind::Eol || all[y].kind == TokenKind::Eof,
+        stmt_src(all, input, base, x, y, s),
+    ensures
+        block_src(all, input, base, a, b2, cuts.push((x, y)), ss.push(s)),
+{
+    let c2 = cuts.push((x, y));
+    let s2 = ss.push(s);
+    let n = ss.len() as int;
+    assert forall|i: int| #[trigger] wi(i) && 0 <= i < n + 1 implies a <= c2[i].0 && c2[i].0 < c2[i].1 && c2[i].1 <= b2 && c2[i].1 < all.len()
+        && (i > 0 ==> c2[i - 1].1 < c2[i].0)
+        && (all[c2[i].1].kind == TokenKind::Eol || all[c2[i].1].kind == TokenKind::Eof) by {
+        if i < n {
+            assert(c2[i] == cuts[i]);
+            if i > 0 { assert(c2[i - 1] == cuts[i - 1]); }
+        } else {
+            assert(c2[i] == (x, y));
+            if i > 0 { assert(c2[i - 1] == cuts.last()); }
+        }
+    }
+    assert forall|i: int| #[trigger] wi(i) && 0 <= i < s2.len() implies stmt_src(all, input, base, c2[i].0, c2[i].1, s2[i]) by {
+        if i < n { assert(c2[i] == cuts[i] && s2[i] == ss[i]); } else { assert(c2[i] == (x, y) && s2[i] == s); }
+    }
+}
+/// a wider range holds the same block
+proof fn lemma_block_src_widen(all: Seq<Token>, input: &str, base: int, a: int, b: int, b2: int, cuts: Seq<(int, int)>, ss: Seq<Stmt>)
+    requires block_src(all, input, base, a, b, cuts, ss), b <= b2
+    ensures block_src(all, input, base, a, b2, cuts, ss)
+{
+    assert forall|i: int| #[trigger] wi(i) && 0 <= i < ss.len() implies cuts[i].1 <= b2 by { }
+}
+
+// one lemma per statement kind: from the token facts to stmt_src (the only places where stmt_src is unfolded)
+proof fn lemma_stmt_src_row(all: Seq<Token>, input: &str, base: int, a: int, b: int, data: Vec<DataEntry>, line: usize)
+    requires 0 <= a < b <= all.len(), row_src(all, input, a, b, data@), line == base + count_eol(all, a)
+    ensures stmt_src(all, input, base, a, b, Stmt::DataRow { data, line })
+{ reveal(stmt_src); }
+proof fn lemma_stmt_src_let(all: Seq<Token>, input: &str, base: int, a: int, b: int, name: String, expr: Expr)
+    requires 0 <= a && a + 4 < b <= all.len(), all[a].kind == TokenKind::Let, all[a + 1].kind == TokenKind::Ident, name@ == tok_str(input, all[a + 1]),
+        all[a + 2].kind == TokenKind::Equal, expr_src(all, input, a + 3, b - 1, expr), all[b - 1].kind == TokenKind::Semi
+    ensures stmt_src(all, input, base, a, b, Stmt::Let { name, expr })
+{ reveal(stmt_src); }
+proof fn lemma_stmt_src_reset(all: Seq<Token>, input: &str, base: int, a: int)
+    requires 0 <= a && a + 2 <= all.len(), all[a].kind == TokenKind::ResetRandom, all[a + 1].kind == TokenKind::Semi
+    ensures stmt_src(all, input, base, a, a + 2, Stmt::ResetRandom)
+{ reveal(stmt_src); }
+proof fn lemma_stmt_src_while(all: Seq<Token>, input: &str, base: int, a: int, b: int, m: int, cuts: Seq<(int, int)>, condition: Expr, inner: Vec<Stmt>)
+    requires 0 <= a && a + 7 <= b <= all.len(), all[a].kind == TokenKind::While, all[a + 1].kind == TokenKind::LParen,
+        all[b - 2].kind == TokenKind::End, all[b - 1].kind == TokenKind::While, a + 2 < m, m + 2 <= b - 2,
+        expr_src(all, input, a + 2, m, condition), all[m].kind == TokenKind::RParen, all[m + 1].kind == TokenKind::Eol,
+        block_src(all, input, base, m + 2, b, cuts, inner@),
+    ensures stmt_src(all, input, base, a, b, Stmt::While { condition, inner })
+{ reveal(stmt_src); assert(wm(m, cuts)); }
+proof fn lemma_stmt_src_loop(all: Seq<Token>, input: &str, base: int, a: int, b: int, m: int, cuts: Seq<(int, int)>, variable: String, max: Expr, inner: Vec<Stmt>)
+    requires 0 <= a && a + 9 <= b <= all.len(), all[a].kind == TokenKind::Loop, all[a + 1].kind == TokenKind::LParen, all[a + 2].kind == TokenKind::Ident,
+        variable@ == tok_str(input, all[a + 2]), all[a + 3].kind == TokenKind::Comma,
+        all[b - 2].kind == TokenKind::End, all[b - 1].kind == TokenKind::Loop, a + 4 < m, m + 2 <= b - 2,
+        expr_src(all, input, a + 4, m, max), all[m].kind == TokenKind::RParen, all[m + 1].kind == TokenKind::Eol,
+        block_src(all, input, base, m + 2, b, cuts, inner@),
+    ensures stmt_src(all, input, base, a, b, Stmt::Loop { variable, max, inner })
+{ reveal(stmt_src); assert(wm(m, cuts)); }
+proof fn lemma_stmt_src_repeat(all: Seq<Token>, input: &str, base: int, a: int, b: int, m: int, variable: String, max: Expr, inner: Vec<Stmt>, data: Vec<DataEntry>, line: usize)
+    requires 0 <= a < b <= all.len(), all[a].kind == TokenKind::Repeat, all[a + 1].kind == TokenKind::LParen, variable@ == "n"@,
+        a + 2 < m, m + 1 <= b, expr_src(all, input, a + 2, m, max), all[m].kind == TokenKind::RParen,
+        inner@.len() == 1, inner@[0] == (Stmt::DataRow { data, line }), row_src(all, input, m + 1, b, data@), line == base + count_eol(all, m + 1),
+    ensures stmt_src(all, input, base, a, b, Stmt::Loop { variable, max, inner })
+{ reveal(stmt_src); assert(wm(m, Seq::<(int, int)>::empty())); }
